@@ -11,6 +11,8 @@ Driver for C17.  Commands (→ answers):
   pairvar <ge25> <c> <v>                                  → v=<stored> reload: class=… variable=…
   setq <ge25> <et> <oa> <quantity|None> <varref> <newq>   → class=… amount=… q=<stored>
   retarget <ge25> <et0> <oa0> <et> <oa> <c> <a> <v>       → src=… q=<stored|error> v=<stored|error>
+  seq <ge25> <et0> <oa0> <op;op;…>                        → src=… q=<stored|error> v=<stored|error>
+      (ops: q<int> quantity setter, t<et>:<oa> effect_type and object_attributes setters, c<int> / a<int> / v<int>)
 -/
 open Driver Aoe.AA
 
@@ -89,6 +91,32 @@ def step (f : Family) (line : String) : Family × String :=
       let e := setVar (setAmount (setClass (retarget f e0 et oa) c) a) v
       (f, s!"src={showSrc e.src} q={showExO (storedQuantity k e)} v={showExI (storedVariable k e)}")
     | _, _, _, _, _, _, _, _ => (f, "bad-op")
+  | ["seq", g, et0, oa0, ops] =>
+    -- effect created as (et0, oa0) with nothing supplied, then any sequence of setter calls:
+    -- q<int> quantity, t<et>:<oa> effect_type + object_attributes, c<int> class, a<int> amount, v<int> variable
+    match g.toNat?, parseOptInt? et0, parseOptInt? oa0 with
+    | some g, some et0, some oa0 =>
+      let k := width (g != 0)
+      let e0 : Eff := fresh (source f et0 oa0)
+      let stepOp (acc : Option Eff) (w : String) : Option Eff :=
+        acc.bind fun e =>
+          let body := (w.drop 1).toString
+          match w.front with
+          | 'q' => (parseInt? body).map (setQuantity k e)
+          | 'c' => (parseInt? body).map (setClass e)
+          | 'a' => (parseInt? body).map (setAmount e)
+          | 'v' => (parseInt? body).map (setVar e)
+          | 't' =>
+            match body.splitOn ":" with
+            | [a, b] => match parseOptInt? a, parseOptInt? b with
+              | some et, some oa => some (retarget f e et oa)
+              | _, _ => none
+            | _ => none
+          | _ => none
+      match (ops.splitOn ";").foldl stepOp (some e0) with
+      | some e => (f, s!"src={showSrc e.src} q={showExO (storedQuantity k e)} v={showExI (storedVariable k e)}")
+      | none => (f, "bad-op")
+    | _, _, _ => (f, "bad-op")
   | _ => (f, "bad-op")
 
 def main : IO Unit := loop step { aaEffects := [], partialQ := [], partialV := [], aaAttrs := [] }
